@@ -103,7 +103,21 @@ func installModels(e *Engine) {
 		s, p := fl(a[0].(StrV)), a[1].(StrV)
 		ps, ok := p.Concrete()
 		if !ok {
-			unsup("HasPrefix with symbolic prefix")
+			// general case: |p| <= |s| and the first |p| bytes agree
+			pf := fl(p)
+			conj := []*Term{Ule(pf.Len, s.Len)}
+			for i := 0; i < len(pf.B); i++ {
+				live := Ult(BV(64, uint64(i)), pf.Len)
+				var sb *Term = BV(8, 0)
+				if i < len(s.B) {
+					sb = s.B[i]
+				} else {
+					conj = append(conj, Not(live))
+					continue
+				}
+				conj = append(conj, Or(Not(live), Eq(sb, pf.B[i])))
+			}
+			return BoolV{And(conj...)}, true
 		}
 		conj := []*Term{Ule(BV(64, uint64(len(ps))), s.Len)}
 		for i := 0; i < len(ps); i++ {
